@@ -195,8 +195,10 @@ def mkInv (p : PModel) (tol : Rat) (qs2 : List Quantity) (es1 : List Equation) :
 def namesKnown (d : InvData) (dict : List (String × Val × Val)) : Bool :=
   dict.all (fun e => (d.quantities.map (·.name)).contains e.1)
 
-/-- `Simultaneous.from_portable` (with the three fixes of the first round) -/
-def fromPortable (subst : List Quantity → Equation → Equation) (tol : Rat) (p : PModel) :
+/-- `Simultaneous.from_portable` (with the three fixes of the first round), parametrised by how one variant's dictionary is
+imported (`importVariant` for the in-memory portable, `C20State.importVariantJson` after a JSON transport) -/
+def fromPortableG (imp : InvData → List (String × Val × Val) → List Val × List Val)
+    (subst : List Quantity → Equation → Equation) (tol : Rat) (p : PModel) :
     Except PErr (InvData × List (List Val × List Val)) :=
   if p.format ≠ "0.3.0" then .error .format else
   match decodeQs p.quantities, decodeEs p.equations with
@@ -208,8 +210,12 @@ def fromPortable (subst : List Quantity → Equation → Equation) (tol : Rat) (
     else if ¬ p.variants.all (namesKnown (mkInv p tol (sourceQuantities p.flags qs) (sourceEquations subst qs es))) then
       .error .unknownName
     else .ok (mkInv p tol (sourceQuantities p.flags qs) (sourceEquations subst qs es),
-              p.variants.map (importVariant (mkInv p tol (sourceQuantities p.flags qs) (sourceEquations subst qs es))))
+              p.variants.map (imp (mkInv p tol (sourceQuantities p.flags qs) (sourceEquations subst qs es))))
   | _, _ => .error .badCode
+
+def fromPortable (subst : List Quantity → Equation → Equation) (tol : Rat) (p : PModel) :
+    Except PErr (InvData × List (List Val × List Val)) :=
+  fromPortableG importVariant subst tol p
 
 /-- executable form of the well-formedness the whole-record round-trip theorem needs (`PortableWF` in `Props/C20.lean`,
 with `base` = the non-std quantities); the driver evaluates it on every generated model -/
